@@ -12,6 +12,7 @@ func TestMain(m *testing.M) {
 		"C14sio":   C14sio,
 		"C14stdio": C14stdio,
 		"C07sio":   C07sio,
+		"C12sio":   C12sio,
 		"C15":      C15,
 		"C13sio":   C13sio,
 		"C09sio":   C09sio,
